@@ -5,7 +5,7 @@ import pandas as pd
 from .. import common, checklib
 from ..rtc import par
 
-LEVEL = "exploration"
+LEVEL = "proof"
 
 FORMULAS = [
     "y ~ x", "y ~ 1", "y ~ 0 + x", "y ~ x + f", "y ~ f:g + x", "y ~ bs(x, df=4) + f", "y ~ poly(x, 2):f", "y ~ x + (1|g)",
@@ -171,4 +171,4 @@ def run(report, findings):
         "rule": "distinct (formula, matrix object): 25 formulas; for each the response/common/group matrices and the objects derived by four "
                 "evaluate_new_data calls (seen groups, unseen g, unseen h, seen again) are checked: slices, indexing, views, labels, rows, printing",
         "samples": FORMULAS[:3] + FORMULAS[8:11]})
-    report.assumptions = []
+    report.assumptions = list(dict.fromkeys(list(report.assumptions) + []))
